@@ -183,8 +183,12 @@ func permitScenario(t int, seed int64, slow bool) ([]map[string]any, error) {
 	defer func() { portalwire.VerifEvent = nil }()
 	sw := netsim.NewSwitch()
 	limit := []int{0, 1, 2, 3, 3}[rng.Intn(5)]
-	if t%24 == 0 || t%24 == 4 || (!slow && t%24 == 7 && limit == 0) {
+	if t%24 == 4 || (!slow && t%24 == 7 && limit == 0) {
 		limit = 3
+	}
+	if t%24 == 0 {
+		limit = 8 // one slot per peer: every peer kind gets its offer WITH a slot (with fewer slots than peers the silent peers,
+		// which keep theirs until the request times out, can starve the others of any offer that holds a slot)
 	}
 	// without --slow one scenario in 24 still waits for the code's own 15 s timeouts (a peer that accepts and never lets the
 	// node connect; an accepted offer whose transfer never comes): it runs in its own child process beside the others
@@ -433,8 +437,11 @@ func permitScenario(t int, seed int64, slow bool) ([]map[string]any, error) {
 			gossiped += n
 			gmu.Unlock()
 		}(r)
-		if r%16 == 15 {
+		if r%16 == 15 || outShow {
 			wg.Wait()
+		}
+		if outShow { // round after round: every peer is offered to while all slots are free
+			waitQuiet(30*time.Second, false)
 		}
 		if overlapOut {
 			time.Sleep(80 * time.Millisecond)
@@ -442,7 +449,8 @@ func permitScenario(t int, seed int64, slow bool) ([]map[string]any, error) {
 	}
 	wg.Wait()
 	dbg("gossip rounds done")
-	out = append(out, map[string]any{"ev": "pm.gossip", "rounds": rounds, "peers": kn, "targets": gossiped, "stopMid": stopMid})
+	out = append(out, map[string]any{"ev": "pm.gossip", "rounds": rounds, "peers": kn, "targets": gossiped, "stopMid": stopMid,
+		"show": outShow, "acqOut": pw.snapshot()["acqOut"]})
 	if stopMid {
 		if !floodStop {
 			time.Sleep(time.Duration(rng.Intn(40)) * time.Millisecond)
